@@ -79,11 +79,15 @@ TEnd == /\ IsEv("End")
         /\ last' = [op |-> "end", t |-> Trace[l].t]
         /\ UNCHANGED <<view, viewdef, stored, pristine, nops>>
         /\ Match
-\* state level only: a request on ANOTHER registry of the same account: nothing of this one may move
+\* state level only: a request on ANOTHER registry of the same account.  Nothing of this registry may move;
+\* that is checked directly on the logged bytes of both registries by props/_registryview.py (it is the
+\* statement itself), so here the logged stored databag is simply taken over, which lets the validation of
+\* the following requests continue from the real stored data.
 TOther == /\ IsEv("Other")
           /\ last' = [op |-> "other"]
-          /\ UNCHANGED <<view, viewdef, stored, open, pristine, deltas, wpaths, nops, mon>>
-          /\ Match
+          /\ stored' = FromJ(Trace[l].st.stored)
+          /\ \A t \in Txns : ~open[t]
+          /\ UNCHANGED <<view, viewdef, open, pristine, deltas, wpaths, nops, mon>>
 
 TInit == /\ l = 1
          /\ viewdef = <<>> /\ view = <<>>       \* the first line is a Reset that installs the view
@@ -98,7 +102,7 @@ TInit == /\ l = 1
 TNext == TReset \/ TBegin \/ TSet \/ TUnset \/ TGet \/ TCommit \/ TEnd \/ TOther
 
 IsReset == l <= Len(Trace) /\ Trace[l].ev = "Reset"
-TraceRejected == [][IsReset \/ RejectedStep]_<<vars, l>>
+TraceRejected == [][IsReset \/ (l <= Len(Trace) /\ Trace[l].ev = "Other") \/ RejectedStep]_<<vars, l>>
 TraceIsolation == [][IsReset \/ (l <= Len(Trace) /\ Trace[l].ev = "End") \/ IsolationStep]_<<vars, l>>
 
 Accepted == TLCGet("stats").diameter - 1 = Len(Trace)
